@@ -2,7 +2,7 @@
 from jobs import native
 
 native('C03.sign_verify', ['C03', 'C14'], 'bounded',
-       'every trace of <= 4 (thorough: <= 5) CID-bearing states out of 6 kinds (scalar / stream / failed call and canon of peer 0, scalar call and canon of peer 1), repeated CIDs included; real Ed25519 keys',
+       'every trace of <= 3 (thorough: <= 4) CID-bearing states out of 6 kinds (scalar / stream / failed call and canon of peer 0, scalar call and canon of peer 1), repeated CIDs included; real Ed25519 keys',
        'air-interpreter-data', 'crates/air-lib/interpreter-data/src/interpreter_data/verification.rs', 'sign_verify.rs',
        'verif_native_sign_verify::signer_and_verifier_agree_on_cid_multisets',
        what='the real signer (PeerCidTracker::register + gen_signature) and the real verifier (DataVerifier::new + verify) agree: data signed the way the interpreter signs it is accepted (the signed object is the sorted MULTISET of a peer\'s CIDs); one state of the signer removed or duplicated after signing, or another salt, is rejected. Verifier-side counterpart of the Verus contract (R) of units cid_record*')
